@@ -117,6 +117,19 @@ def run(ctx):
     for extra in ((0, 5, 2), (0, 5, 3), (0, 2, 3)):
         if extra not in combos:
             combos.append(extra)
+    # "to exactly the requested fields" over cipher x MAC includes the pairs the format rules out (a MAC shorter than the cipher
+    # key: the DEK would be too short) and type codes that name nothing: no credential, or one with exactly those fields - never a
+    # credential with a substituted type
+    for (c, m, z) in [(5, 2, 0), (5, 3, 0), (5, 4, 0), (5, 2, 3), (4, 7, 0), (6, 5, 0), (4, 5, 4), (4, 0, 0), (5, 0, 0)]:
+        r, st = rig.encode(cr.d.sock, uid=1000, gid=1001, cipher=c, mac=m, zip_=z, data=b"no substitutions")
+        ctx.count(("d2r-ruled-out", c, m, z))
+        dist["daemon->ref"] += 1
+        if r is not None and r["error_num"] == 0:
+            p = cr.o.parse(r["data"])
+            body = hostile.unarmor(r["data"]) or b"\0" * 5
+            fails.append({"why": "munged emits a credential for the request (cipher %d, mac %d, zip %d), which the format rules out; its header carries "
+                                 "(cipher %d, mac %d, zip %d) - not the requested fields%s" % (c, m, z, body[1], body[2], body[3],
+                                 "" if p else "; the reference cannot parse it"), "cred_hex": r["data"].hex()[:2000]})
     for (c, m, z) in combos:
         for n in ((0, 5, 100, 3000) if ctx.thorough else (0, 100)):
             data = (b"conformance payload " * (n // 20 + 1))[:n]
